@@ -1,4 +1,278 @@
-import Garnish.Driver.Proto
+/-
+LIST suite (C16): builds the value term in a model of each store (address allocation as the implementation
+does it, lists through `Store.Lists`), answers the data-level queries from the store models and the
+runtime-level queries from the value-level semantics (`Abs.Ops`).
+Line format: see harness/src/lists.rs.
+-/
+import Garnish.Abs.Ops
+import Garnish.Driver.ValIO
+import Garnish.Store.Lists
 namespace Garnish.Driver
-def listCase (_f : List String) : String := "UNIMPLEMENTED"
+open Garnish Garnish.Abs Garnish.Store.Lists
+
+/-! ### SimpleGarnishData: `data` seeded with unit/false/true, scalars through `cache_add`, the rest pushed -/
+
+structure SSt where
+  cells : Array SCell
+  vals : Array V                   -- the value an address denotes (for rendering only)
+  cache : List (String × Nat)
+
+def SSt.init : SSt := ⟨#[.other, .other, .other], #[.unit, .fls, .tru], []⟩
+
+def SSt.push (st : SSt) (c : SCell) (v : V) : Nat × SSt :=
+  (st.cells.size, { st with cells := st.cells.push c, vals := st.vals.push v })
+
+def SSt.cached (st : SSt) (c : SCell) (v : V) : Nat × SSt :=
+  let key := showVal v
+  match st.cache.lookup key with
+  | some a => (a, st)
+  | none =>
+    let (a, st) := st.push c v
+    (a, { st with cache := (key, a) :: st.cache })
+
+mutual
+def buildS : V → SSt → Except String (Nat × SSt)
+  | .unit, st => .ok (0, st)
+  | .fls, st => .ok (1, st)
+  | .tru, st => .ok (2, st)
+  | .num n, st => .ok (st.cached .other (.num n))
+  | .char c, st => .ok (st.cached .other (.char c))
+  | .byte b, st => .ok (st.cached .other (.byte b))
+  | .sym s, st => .ok (st.cached (.sym s) (.sym s))
+  | .expr j, st => .ok (st.cached .other (.expr j))
+  | .ext n, st => .ok (st.cached .other (.ext n))
+  | .type t, st => .ok (st.cached .other (.type t))
+  | .chars cs, st => .ok (st.push .other (.chars cs))
+  | .bytes bs, st => .ok (st.push .other (.bytes bs))
+  | .pair l r, st =>
+    match buildS l st with
+    | .error e => .error e
+    | .ok (a, st) =>
+      match buildS r st with
+      | .error e => .error e
+      | .ok (b, st) => .ok (st.push (.pair a b) (.pair l r))
+  | .concat l r, st =>
+    match buildS l st with
+    | .error e => .error e
+    | .ok (a, st) =>
+      match buildS r st with
+      | .error e => .error e
+      | .ok (b, st) => .ok (st.push (.concat a b) (.concat l r))
+  | .range l r, st =>
+    match buildS l st with
+    | .error e => .error e
+    | .ok (_, st) =>
+      match buildS r st with
+      | .error e => .error e
+      | .ok (_, st) => .ok (st.push .other (.range l r))
+  | .part l r, st =>
+    match buildS l st with
+    | .error e => .error e
+    | .ok (_, st) =>
+      match buildS r st with
+      | .error e => .error e
+      | .ok (_, st) => .ok (st.push .other (.part l r))
+  | .list items, st =>
+    match buildSList items st with
+    | .error e => .error e
+    | .ok (addrs, st) =>
+      match endListSimple addrs with
+      | .ok (its, ord) => .ok (st.push (.list its ord) (.list items))
+      | .err _ => .error "SETUP-ERR data error"
+      | .panic m => .error ("PANIC " ++ m)
+      | .fuelOut => .error "FUEL"
+  | _, _ => .error "UNSUPPORTED-TERM"
+def buildSList : List V → SSt → Except String (List Nat × SSt)
+  | [], st => .ok ([], st)
+  | v :: vs, st =>
+    match buildS v st with
+    | .error e => .error e
+    | .ok (a, st) =>
+      match buildSList vs st with
+      | .error e => .error e
+      | .ok (as, st) => .ok (a :: as, st)
+end
+
+/-! ### BasicGarnishData: every `add_*` pushes cells onto the data block -/
+
+structure BSt where
+  cells : BHeap
+  vals : Array V
+
+def BSt.push (st : BSt) (c : BCell) (v : V) : Nat × BSt :=
+  (st.cells.size, { cells := st.cells.push c, vals := st.vals.push v })
+
+def BSt.pushMany (st : BSt) (n : Nat) : BSt :=
+  { cells := st.cells ++ Array.replicate n .other, vals := st.vals ++ Array.replicate n .unit }
+
+mutual
+def buildB : V → BSt → Except String (Nat × BSt)
+  | .unit, st => .ok (st.push .other .unit)
+  | .fls, st => .ok (st.push .other .fls)
+  | .tru, st => .ok (st.push .other .tru)
+  | .num n, st => .ok (st.push .other (.num n))
+  | .char c, st => .ok (st.push .other (.char c))
+  | .byte b, st => .ok (st.push .other (.byte b))
+  | .sym s, st => .ok (st.push (.sym s) (.sym s))
+  | .expr j, st => .ok (st.push .other (.expr j))
+  | .ext n, st => .ok (st.push .other (.ext n))
+  | .type t, st => .ok (st.push .other (.type t))
+  | .chars cs, st => let (a, st) := st.push .other (.chars cs); .ok (a, st.pushMany cs.length)
+  | .bytes bs, st => let (a, st) := st.push .other (.bytes bs); .ok (a, st.pushMany bs.length)
+  | .pair l r, st =>
+    match buildB l st with
+    | .error e => .error e
+    | .ok (a, st) =>
+      match buildB r st with
+      | .error e => .error e
+      | .ok (b, st) => .ok (st.push (.pair a b) (.pair l r))
+  | .concat l r, st =>
+    match buildB l st with
+    | .error e => .error e
+    | .ok (a, st) =>
+      match buildB r st with
+      | .error e => .error e
+      | .ok (b, st) => .ok (st.push (.concat a b) (.concat l r))
+  | .range l r, st =>
+    match buildB l st with
+    | .error e => .error e
+    | .ok (_, st) =>
+      match buildB r st with
+      | .error e => .error e
+      | .ok (_, st) => .ok (st.push .other (.range l r))
+  | .part l r, st =>
+    match buildB l st with
+    | .error e => .error e
+    | .ok (_, st) =>
+      match buildB r st with
+      | .error e => .error e
+      | .ok (_, st) => .ok (st.push .other (.part l r))
+  | .list items, st =>
+    match buildBList items st with
+    | .error e => .error e
+    | .ok (addrs, st) =>
+      match buildListBasic st.cells addrs with
+      | .ok (h2, a) =>
+        let vals := (st.vals.push (.list items)) ++ Array.replicate (2 * addrs.length) Val.unit
+        .ok (a, { cells := h2, vals := vals })
+      | .err _ => .error "SETUP-ERR data error"
+      | .panic m => .error ("PANIC " ++ m)
+      | .fuelOut => .error "FUEL"
+  | _, _ => .error "UNSUPPORTED-TERM"
+def buildBList : List V → BSt → Except String (List Nat × BSt)
+  | [], st => .ok ([], st)
+  | v :: vs, st =>
+    match buildB v st with
+    | .error e => .error e
+    | .ok (a, st) =>
+      match buildBList vs st with
+      | .error e => .error e
+      | .ok (as, st) => .ok (a :: as, st)
+end
+
+/-! ### queries -/
+
+/-- the data interface of a built store, as far as the LIST suite uses it -/
+structure ListData where
+  len : Outcome Nat
+  items : Outcome (List Nat)
+  nth : Int → Outcome (Option Nat)
+  sym : Nat → Outcome (Option Nat)
+  show_ : Nat → String
+
+def showOptItem (d : ListData) : Outcome (Option Nat) → String
+  | .ok (some a) => d.show_ a
+  | .ok none => "none"
+  | .err _ => "err"
+  | .panic m => "PANIC " ++ m
+  | .fuelOut => "FUEL"
+
+def opOutStr : OpOut Float → String
+  | .val v => showVal v
+  | .defer _ _ _ => "U"              -- no host installed: the offer is declined, unit
+  | .err _ => "err"
+
+def applyStr (l r : V) : String :=
+  match applyKind hwFloatOps .apply true l r with
+  | .out o => opOutStr o
+  | .enter _ _ => "ENTER"
+  | .external _ _ => "EXTERNAL"
+
+def answer (d : ListData) (v : V) (q : String) : String :=
+  let (name, arg) := match q.splitOn ":" with
+    | [n, a] => (n, a)
+    | _ => (q, "")
+  match name with
+  | "len" => match d.len with
+    | .ok n => s!"len={n}"
+    | .err _ => "len=err"
+    | .panic m => "len=PANIC " ++ m
+    | .fuelOut => "len=FUEL"
+  | "items" => match d.items with
+    | .ok xs => "items=[" ++ String.intercalate "," (xs.map d.show_) ++ "]"
+    | .err _ => "items=err"
+    | .panic m => "items=PANIC " ++ m
+    | .fuelOut => "items=FUEL"
+  | "nth" => match arg.toInt? with
+    | some i => s!"nth({i})=" ++ showOptItem d (d.nth i)
+    | none => "BAD-CASE nth"
+  | "sym" => match arg.toNat? with
+    | some s => s!"sym({s})=" ++ showOptItem d (d.sym s)
+    | none => "BAD-CASE sym"
+  | "acc" => match arg.toInt? with
+    | some i => s!"acc({i})=" ++ opOutStr (access hwFloatOps v (.num (.int i)))
+    | none => "BAD-CASE acc"
+  | "app" => match arg.toInt? with
+    | some i => s!"app({i})=" ++ applyStr v (.num (.int i))
+    | none => "BAD-CASE app"
+  | "accs" => match arg.toNat? with
+    | some s => s!"accs({s})=" ++ opOutStr (access hwFloatOps v (.sym s))
+    | none => "BAD-CASE accs"
+  | "apps" => match arg.toNat? with
+    | some s => s!"apps({s})=" ++ applyStr v (.sym s)
+    | none => "BAD-CASE apps"
+  | x => "BAD-CASE query " ++ x
+
+def showAddr (vals : Array V) (a : Nat) : String :=
+  match vals[a]? with
+  | some v => showVal v
+  | none => "<bad-addr>"
+
+def isConcat : V → Bool
+  | .concat _ _ => true
+  | _ => false
+
+def listCase (f : List String) : String :=
+  match f with
+  | [_, _, store, term, queries] =>
+    match parseVal term with
+    | none => "BAD-CASE term"
+    | some v =>
+      let qs := (queries.splitOn " ").filter (· ≠ "")
+      if store == "simple" then
+        match buildS v SSt.init with
+        | .error e => e
+        | .ok (addr, st) =>
+          let view : SView := fun a => st.cells[a]?
+          let d : ListData := {
+            len := listLenSimple view addr
+            items := if isConcat v then concatIterSimple view (2 * st.cells.size + 2) addr else listIterSimple view addr
+            nth := listItemSimple view addr
+            sym := listLookupSimple view addr
+            show_ := showAddr st.vals }
+          String.intercalate " " (qs.map (answer d v))
+      else if store == "basic" then
+        match buildB v ⟨#[], #[]⟩ with
+        | .error e => e
+        | .ok (addr, st) =>
+          let d : ListData := {
+            len := listLenBasic st.cells addr
+            items := if isConcat v then concatIterBasic st.cells (2 * st.cells.size + 2) addr else listIterBasic st.cells addr
+            nth := listItemBasic st.cells addr
+            sym := lookupBasic st.cells addr
+            show_ := showAddr st.vals }
+          String.intercalate " " (qs.map (answer d v))
+      else "BAD-CASE store " ++ store
+  | _ => "BAD-CASE fields"
+
 end Garnish.Driver
